@@ -81,6 +81,13 @@ func Generate(r *lp.Rng, o Opts) *Design {
 	for i := 0; i < ns; i++ {
 		g.service(i)
 	}
+	// chosen by the index, so that the random stream of the other designs is unchanged:
+	if o.Index%3 == 2 {
+		g.d.Path = "/api" // an API level base path in front of every route
+	}
+	if o.Index%5 == 3 {
+		g.sharedTemplate() // a second verb on the path template of an existing method
+	}
 	return g.d
 }
 
@@ -416,6 +423,39 @@ func (g *gen) service(i int) {
 	}
 }
 
+// sharedTemplate adds a method mounted on the path template of the first method of the first service
+// with another verb: its payload consists of the path attributes of that method (same names and types).
+func (g *gen) sharedTemplate() {
+	s := g.d.Services[0]
+	m0 := s.Methods[0]
+	verb := "DELETE"
+	if m0.HTTP.Verb == "DELETE" {
+		verb = "GET"
+	}
+	for _, m := range s.Methods {
+		if m.HTTP.Path == m0.HTTP.Path && m.HTTP.Verb == verb {
+			return
+		}
+	}
+	if g.routes[verb+" "+m0.HTTP.Path] {
+		return
+	}
+	alt := &Method{Name: m0.Name + "_alt", HTTP: &HTTPMap{Verb: verb, Path: m0.HTTP.Path}, NoSecurity: g.o.Security}
+	payload := &Att{Type: &Type{IsObject: true}}
+	if m0.Payload != nil {
+		for _, f := range m0.Payload.Type.Object {
+			if strings.Contains(m0.HTTP.Path, "{"+f.Name+"}") {
+				payload.Type.Object = append(payload.Type.Object, f)
+				payload.Required = append(payload.Required, f.Name)
+			}
+		}
+	}
+	if len(payload.Type.Object) > 0 {
+		alt.Payload = payload
+	}
+	s.Methods = append(s.Methods, alt)
+}
+
 func (g *gen) requirement() Req {
 	n := 1
 	if len(g.d.Schemes) > 1 && g.r.Intn(3) == 0 {
@@ -568,7 +608,11 @@ func (g *gen) method(s *Service, name string, cell int) {
 					g.lastCred = attr
 					m.Creds[attr] = cred
 					payload.Type.Object = append(payload.Type.Object, &Field{Name: attr, Att: &Att{Type: &Type{Prim: "String"}}})
-					payload.Required = append(payload.Required, attr)
+					// one design in three leaves the credentials optional (pointer fields in the payload);
+					// chosen by the index so that the random stream of the other designs is unchanged
+					if g.o.Index%3 != 2 {
+						payload.Required = append(payload.Required, attr)
+					}
 				}
 				switch kind {
 				case "basic":
@@ -589,6 +633,10 @@ func (g *gen) method(s *Service, name string, cell int) {
 					}
 				case "oauth2":
 					add("access", "oauth2")
+					if g.o.Index%2 == 1 {
+						// an explicit header of its own (otherwise goa's implicit Authorization header, possibly shared with JWT)
+						h.Headers = append(h.Headers, Mapped{Attr: g.lastCred, Wire: "X-Access-Token"})
+					}
 				}
 			}
 		}
@@ -683,6 +731,13 @@ func (g *gen) method(s *Service, name string, cell int) {
 			// an error of primitive type sharing a status with other errors
 			m.Errors = append(m.Errors, &ErrDef{Name: "text_err", Type: &Att{Type: &Type{Prim: "String"}}})
 			h.Errors = append(h.Errors, &ErrResp{Name: "text_err", Code: 409})
+		}
+		if g.o.Index%4 == 1 {
+			// two errors of the default type on one status code whose responses differ: the second one
+			// carries its message in a header (chosen by the index: the random stream is unchanged)
+			m.Errors = append(m.Errors, &ErrDef{Name: "alpha"}, &ErrDef{Name: "beta", Temporary: true})
+			h.Errors = append(h.Errors, &ErrResp{Name: "alpha", Code: 422},
+				&ErrResp{Name: "beta", Code: 422, Headers: []Mapped{{Attr: "message", Wire: "X-Error-Message"}}})
 		}
 		for i := 0; i < ne; i++ {
 			en := []string{"not_found", "bad_thing", "busy"}[i]
